@@ -27,6 +27,17 @@ CLAIMED = {
         note="Trusted: verif_snapshot() reads the same fields the channel uses; virtual-time expiry comparisons are exact."),
 }
 
+CLAIMED.update({
+    "C10": dict(engine="fsim-faults", design="5/C10", level="fault_enumeration",
+        technique="deterministic simulation with fault injection: per generated batch history, every filesystem call index x every fault kind (error, EINTR, short/zero/torn write, crash before/after/mid-write with crash-recovery variants) plus sampled multi-fault sequences, against a durable-view oracle",
+        text="For each seeded batch history the real emit_file worker runs over an in-memory filesystem that separates written from synced content and volatile from durable directory entries. One fault-free pass counts the calls (strict oracle), then a single fault of every applicable kind is injected at every call index (exhaustive over single faults for that history), then 2-4-fault sequences are sampled. After every acknowledged batch each event must be a complete record in what the worst-case crash would leave; after every call and crash every record of every file must be an event, empty, or a truncated prefix ending exactly where a write was interrupted. Fault enumeration per sampled history is the right level: the property quantifies over call index x fault kind, which is finite per history and is covered completely; histories themselves are sampled.",
+        note="Trusted: the filesystem model (a directory entry is durable only after sync_parent; un-synced suffixes may be lost in any part; deletions not followed by a directory sync may be undone); the harness re-submits a retry remainder like the channel does, a bounded number of times; events whose file the set's own retention deleted are exempt from the durability claim. StdFilesystem and real disks are not exercised."),
+    "C11": dict(engine="fsim-rolling", design="5/C11",
+        technique="deterministic simulation: generated configurations x directory contents x clock trajectories x batch histories with restarts, real worker against a reference rolling policy and the filesystem call log",
+        text="Seeded exploration of configurations (templates with dotted / sibling-extended prefixes, roll interval, max_files 1..6/32, size limits, reuse), pre-existing directory contents (own files of earlier runs, sibling sets, strangers), clock trajectories (zero, forward, period-crossing, backward) and batch histories with restarts and overflow-built batches. A reference policy decides per batch whether a new file must start; the call log is checked for exactly one file written, strict name grammar with the period and counter of the clock reading, retention bound and order, no panic, and no touch of any file outside the set.",
+        note="Trusted: the reference rolling policy and the strict name grammar (prefix.period.counter.id.ext with period of any of the three roll shapes); order-related rules apply only while the generated clock never steps back."),
+})
+
 PENDING = {
     "C03": "check not built yet (ctx engine in progress); will be claimed",
     "C04": "check not built yet (ctx engine in progress); will be claimed",
@@ -79,6 +90,10 @@ def main():
         "engines": [
             {"name": "chan-inline", "path": "/verif/sim/src/chan_inline.rs", "serves_properties": ["C06", "C07", "C08", "C09"],
              "kind_free_text": "single-OS-thread deterministic simulation of the real emit_batcher channel: seeded interleaver, virtual clock, scripted fault-injecting processor, reference queue"},
+            {"name": "fsim-faults", "path": "/verif/sim/src/fsim.rs", "serves_properties": ["C10"],
+             "kind_free_text": "real emit_file worker over a fault-injecting in-memory filesystem (written vs synced, durable vs volatile entries); single-fault enumeration per generated history + sampled multi-fault sequences"},
+            {"name": "fsim-rolling", "path": "/verif/sim/src/fsim.rs", "serves_properties": ["C11"],
+             "kind_free_text": "real emit_file worker over the in-memory filesystem with scripted clock/rng against a reference rolling policy"},
         ],
         "checks": checks,
         "not_applicable": na,
